@@ -191,6 +191,13 @@ Section Join.
   Definition indptr_ok (ip : list Z) (nnz : Z) : Prop :=
     hd (-1) ip = 0 /\ Sorted.StronglySorted Z.le ip /\ last ip (-1) = nnz.
 
+  (* needed = max(total_nnz, indptr.shape[0] - 1): what the pointer's dtype is widened for
+     (`if not can_store(indptr.dtype, needed): indptr = indptr.astype(np.min_scalar_type(needed))`);
+     the widths themselves are not modelled (C15), the bound is: see JoinP.indptr_needed_bounds *)
+  Definition indptr_needed (needed_expr : pyv -> pyv -> res pyv) (members : list (list Z * Z)) : res Z :=
+    r <- needed_expr (VInt (zsum (map snd members))) (VInt (Z.of_nat (length (splice members)))) ;;
+    match r with VInt z => Ok z | _ => Raise TypeError end.
+
   (* GCXS.from_coo / change_compressed_axes, by their meaning: the entries ordered by
      (row, column) of the matrix view for the compressed axes ca; indices = columns,
      indptr = running row counts.  (Conversion algorithms themselves: C05.) *)
